@@ -87,4 +87,17 @@ PROPS = {
         "partial": "theorems: range validation, one single-epoch proof per epoch, list-length checks; that the walk over the latest tree verifies for every range is decided by correspondence + oracle (all pairs after every queried epoch)",
         "assumptions": [],
     },
+    "C09": {
+        "coq_deps": ["VerifyFacts"],
+        "steps": [{"sub": "audits", "quick": [0], "thorough": [1]}],
+        "rule": "adversarial single-epoch append-only proofs against the real auditor on real start trees (both configurations): frontier of "
+                "the start tree as unchanged nodes combined with fresh leaves anywhere, leaves strictly below an unchanged node, an inserted "
+                "element carrying an unchanged label, a node together with its child, duplicated elements, an old leaf re-inserted with another "
+                "value; the end hash is chosen freely (root of the auditor's own rebuild); accepted => every claimed element must be a node of "
+                "the rebuilt end tree (ground truth); plus multi-epoch proofs with inconsistent lists and replaced/altered hashes and epochs; "
+                "every rebuild hash and verdict recomputed by the extracted model",
+        "partial": "structural theorems proved (prefix-freeness of accepted proofs, list lengths, determinism of the hash list); the semantic "
+                   "conclusion needs the rebuild = canonical-trie refinement, decided per run by correspondence + ground-truth oracle",
+        "assumptions": [],
+    },
 }
